@@ -12,7 +12,12 @@
 //!  (c) real GPOS PairPos / MarkBasePos lookups at 1x-4x the 64 KiB limit, every
 //!      covered glyph set drawn from a family of run shapes and coverage formats,
 //!      plus a boundary-adapted variant that puts range-record boundaries around
-//!      the split points just observed (gpos.rs).
+//!      the split points just observed (gpos.rs);
+//!  (d) GPOS SinglePos / PairPos 1+2 / MarkBasePos lookups whose value records
+//!      and anchors carry Device / VariationIndex tables with per-field ids
+//!      (unique or pooled), sized to force splitting and promotion; on read-back
+//!      every device offset must resolve to the table written for that exact
+//!      field (gposdev.rs).
 //! Oracle: `spec::resolve` (graphs); GPOS: every input glyph is looked up through
 //! the output coverage tables, is covered by exactly one output subtable and
 //! reaches its own pair set / class record / anchors with every input value.
@@ -25,6 +30,7 @@
 
 pub mod big;
 pub mod gpos;
+pub mod gposdev;
 pub mod spec;
 
 use serde_json::{json, Value};
@@ -45,7 +51,7 @@ pub fn run(ctx: &mut Ctx, _args: &Args) {
     ctx.rule = "graph cases: the object graph has >= 1 link and the plain topological (Kahn) order overflowed, \
                 i.e. the recorded stage trace is longer than [kahn] (shortest-distance / space assignment / \
                 isolation+duplication / PackingFailed paths ran); GPOS cases: the table exceeds 64 KiB in at \
-                least one lookup so that split_check or promote ran. Digest = the abstract spec (sizes, links, \
+                least one lookup so that split_check or promote ran (gposdev: the output has more subtables than the input or an extension lookup). Digest = the abstract spec (sizes, links, \
                 widths, positions, adjustments) resp. the GPOS recipe"
         .into();
     ctx.assumptions = vec![
@@ -55,6 +61,11 @@ pub fn run(ctx: &mut Ctx, _args: &Args) {
     ];
     let _ = hooks::take_trace();
 
+    // debugging aid: VF_C05_ONLY=gposdev runs only that workload
+    if std::env::var("VF_C05_ONLY").map(|v| v == "gposdev").unwrap_or(false) {
+        gposdev::run(ctx);
+        return;
+    }
     let t0 = ctx.elapsed_s();
     exhaustive(ctx);
     let t1 = ctx.elapsed_s();
@@ -64,9 +75,11 @@ pub fn run(ctx: &mut Ctx, _args: &Args) {
     let t3 = ctx.elapsed_s();
     gpos::run(ctx);
     let t4 = ctx.elapsed_s();
+    gposdev::run(ctx);
+    let t5 = ctx.elapsed_s();
     ctx.extra.insert(
         "workload_seconds_this_shard".into(),
-        json!({"exhaustive": t1 - t0, "random": t2 - t1, "big24": t3 - t2, "gpos": t4 - t3}),
+        json!({"exhaustive": t1 - t0, "random": t2 - t1, "big24": t3 - t2, "gpos": t4 - t3, "gposdev": t5 - t4}),
     );
 }
 
@@ -689,6 +702,8 @@ fn replay(ctx: &mut Ctx, _args: &Args, rec: &Value, _bytes: Option<&[u8]>) {
         let id = d["case"].as_str().unwrap_or("replay").to_string();
         let out = run_graph_case(ctx, &spec, "replay", &id);
         eprintln!("replay {}: outcome={} trace={}", id, out.outcome, out.trace);
+    } else if d["recipe"]["kdev"].is_u64() {
+        gposdev::replay(ctx, &d["recipe"]);
     } else if d["recipe"].is_object() {
         gpos::replay(ctx, &d["recipe"]);
     } else {
